@@ -34,7 +34,7 @@ mod imp {
     }
 
     /// Extra accepted query shapes the repository corpus does not contain (numbers schema).
-    const EXTRA: [(&str, &str); 32] = [
+    const EXTRA: [(&str, &str); 39] = [
         ("x_tag_twice_in_fold", r#"{ Number(min: 2, max: 4) { value @tag(name: "v") @output multiple(max: 3) @fold { value @output(name: "m") @filter(op: ">", value: ["%v"]) @filter(op: "!=", value: ["%v"]) } } }"#),
         ("x_tag_in_fold_and_nested_fold", r#"{ Number(min: 2, max: 4) { value @tag(name: "v") @output multiple(max: 3) @fold { value @output(name: "m") @filter(op: ">", value: ["%v"]) divisor @fold { value @output(name: "d") @filter(op: "<=", value: ["%v"]) } } } }"#),
         ("x_tag_only_in_nested_fold", r#"{ Number(min: 2, max: 4) { name @output value @tag(name: "v") multiple(max: 3) @fold { value @output(name: "m") divisor @fold { value @output(name: "d") @filter(op: "<=", value: ["%v"]) } } } }"#),
@@ -66,6 +66,13 @@ mod imp {
         ("x_one_of_with_repeated_values_in_fold", r#"{ Number(min: 0, max: 4) { value @output multiple(max: 3) @fold { value @output(name: "m") @filter(op: "one_of", value: ["$dups"]) } } }"#),
         ("x_fold_with_three_vertices_using_three_outer_tags", r#"{ Number(min: 2, max: 4) { value @tag(name: "a") @output name @tag(name: "b") vowelsInName @tag(name: "c") multiple(max: 3) @fold { value @output(name: "m") @filter(op: ">", value: ["%a"]) successor { name @filter(op: "!=", value: ["%b"]) predecessor { vowelsInName @filter(op: "!=", value: ["%c"]) successor { value @filter(op: ">", value: ["%a"]) name @filter(op: "!=", value: ["%b"]) } } } } } }"#),
         ("x_nested_folds_importing_tags_in_reverse_order", r#"{ Number(min: 2, max: 4) { value @tag(name: "a") @output name @tag(name: "b") vowelsInName @tag(name: "c") multiple(max: 3) @fold { vowelsInName @filter(op: "!=", value: ["%c"]) value @output(name: "m") divisor @fold { name @filter(op: "!=", value: ["%b"]) value @output(name: "d") successor { value @filter(op: ">", value: ["%a"]) } } } } }"#),
+        ("x_ordering_filter_with_null_tag_lt", r#"{ Number(min: 19, max: 23) { value @output name @tag(name: "n") predecessor { name @output(name: "pn") @filter(op: "<", value: ["%n"]) } } }"#),
+        ("x_ordering_filter_with_null_tag_ge", r#"{ Number(min: 19, max: 23) { value @output name @tag(name: "n") predecessor { name @output(name: "pn") @filter(op: ">=", value: ["%n"]) } } }"#),
+        ("x_ordering_filter_with_null_tag_le_gt", r#"{ Number(min: 19, max: 23) { value @output name @tag(name: "n") successor { name @output(name: "sn") @filter(op: "<=", value: ["%n"]) predecessor { name @filter(op: ">", value: ["%n"]) } } } }"#),
+        ("x_null_property_against_non_null_tag", r#"{ Number(min: 18, max: 22) { value @output name @tag(name: "n") successor { successor { name @output(name: "ssn") @filter(op: "<", value: ["%n"]) } } } }"#),
+        ("x_fold_two_required_edges_below_missing_optional", r#"{ Number(min: 0, max: 2) { value @output predecessor @optional { successor { multiple(max: 2) @fold { value @output(name: "m") } } } } }"#),
+        ("x_typename_and_count_two_edges_below_missing_optional", r#"{ Number(min: 0, max: 2) { value @output predecessor @optional { successor { successor { __typename @output(name: "kind") multiple(max: 2) @fold @transform(op: "count") @output(name: "cnt") } } } } }"#),
+        ("x_fold_list_three_edges_below_missing_optional", r#"{ Number(min: 0, max: 2) { value @output predecessor @optional { successor { predecessor { successor { multiple(max: 2) @fold { name @output(name: "mn") divisor @fold { value @output(name: "d") } } } } } } } }"#),
         ("x_variable_used_twice", r#"{ Number(min: 0, max: 5) { value @output @filter(op: ">=", value: ["$x"]) successor { value @filter(op: "!=", value: ["$x"]) } } }"#),
     ];
 
